@@ -1,40 +1,69 @@
-def _over(dev):
-    return any(dev.get("used", {}).get(r, 0) > dev.get("total", {}).get(r, 0) for r in dev.get("used", {}))
+def _ledger_kind(obs):
+    """which ledger relation is broken inside the logged observation itself (diagnostic label only)"""
+    kinds = []
+    summed = {}
+    for a in obs.get("alloc", []):
+        for r, v in a.get("res", {}).items():
+            summed[(a["t"], a["m"], r)] = summed.get((a["t"], a["m"], r), 0) + v
+    seen = set()
+    for d in obs.get("dev", []):
+        for r in set(d.get("used", {})) | set(d.get("total", {})) | set(d.get("free", {})):
+            u, t, f = d.get("used", {}).get(r, 0), d.get("total", {}).get(r, 0), d.get("free", {}).get(r, 0)
+            seen.add((d["t"], d["m"], r))
+            if u != summed.get((d["t"], d["m"], r), 0):
+                kinds.append("used!=sum(allocateSet)")
+            if f != max(0, t - u):
+                kinds.append("free!=total-used")
+    if any(k not in seen and v for k, v in summed.items()):
+        kinds.append("used!=sum(allocateSet)")
+    return "+".join(sorted(set(kinds))) or "ledgers-differ-from-objects(total/allocateSet/used)"
+
+
+def _alloc_kind(e, prev):
+    """(A)/(K) label recomputed from the previous observation's free amounts (diagnostic label only)"""
+    free = {(d["t"], d["m"]): d.get("free", {}) for d in prev.get("obs", {}).get("dev", [])}
+    res = e.get("result", {})
+    feasible, cands = True, {}
+    for t, r in e.get("reqs", {}).items():
+        minors = set(m for (tt, m) in free if tt == t)
+        if e.get("required", {}).get(t):
+            minors &= set(e["required"][t])
+        cands[t] = set(m for m in minors if all(free[(t, m)].get(k, 0) >= v for k, v in r["req"].items()))
+        if len(cands[t]) < r["cnt"]:
+            feasible = False
+    if not res.get("ok"):
+        return "failed-although-feasible" if feasible else None
+    if not feasible:
+        return "granted-although-infeasible"
+    bad = []
+    for t, r in e.get("reqs", {}).items():
+        ms = [g["m"] for g in res.get("alloc", {}).get(t, [])]
+        if len(set(ms)) != len(ms):
+            bad.append("same-minor-twice")
+        if any(m not in cands[t] for m in ms):
+            bad.append("device-without-enough-free-or-not-allowed")
+        if len(ms) != r["cnt"]:
+            bad.append("wrong-count")
+    return "+".join(sorted(set(bad))) or None
 
 
 def sig(fl):
     """classify a rejected event (diagnostic label + known-finding key only; the verdict was TLC's)"""
     e = fl["event"]
     op = e.get("op")
-    kind = "ledger"
+    i = fl["fail_index"]
+    prev = fl["segment"][i - 1] if i >= 1 else {}
+    kind = None
     if op == "panic":
         kind = "panic in=%s" % e.get("in")
-    elif fl.get("violated"):
-        kind = "invariant=%s" % fl["violated"]
     elif op == "alloc":
-        exp = fl.get("expected") or {}
-        al = exp.get("allocator") if isinstance(exp, dict) else None
-        res = e.get("result", {})
-        if al is not None:
-            if res.get("ok") and not al.get("feasible"):
-                kind = "granted-although-infeasible"
-            elif not res.get("ok") and al.get("feasible"):
-                kind = "failed-although-feasible"
-            elif res.get("ok"):
-                bad = []
-                for t, grants in res.get("alloc", {}).items():
-                    cands = set(al.get("candidates", {}).get(t, []))
-                    ms = [g["m"] for g in grants]
-                    if len(set(ms)) != len(ms):
-                        bad.append("same-minor-twice")
-                    if any(m not in cands for m in ms):
-                        bad.append("device-without-enough-free-or-not-allowed")
-                    want = e.get("reqs", {}).get(t, {}).get("cnt")
-                    if want is not None and len(ms) != want:
-                        bad.append("wrong-count")
-                if not bad and any(_over(d) for d in e.get("obs", {}).get("dev", [])):
-                    bad.append("over-commit-or-ledger")
-                kind = "+".join(sorted(set(bad))) or "ledger"
+        kind = _alloc_kind(e, prev)
+        if kind is None and any(d.get("used", {}).get(r, 0) > d.get("total", {}).get(r, 0)
+                                for d in e.get("obs", {}).get("dev", []) for r in d.get("used", {})):
+            k2 = _ledger_kind(e.get("obs", {}))
+            kind = "over-commit" if k2.startswith("ledgers-differ") else k2
+    if kind is None:
+        kind = _ledger_kind(e.get("obs", {}))
     return "op=%s %s" % (op, kind)
 
 
